@@ -96,7 +96,8 @@ type vhConnOutcome struct {
 
 func vhRunConn(r io.Reader, initialID string) (vhConnOutcome, *Connection) {
 	var o vhConnOutcome
-	c := &Connection{callbacks: map[string]map[int]EventCallback{}, callbacksAll: map[int]EventCallback{}, lastEventID: initialID}
+	c := vhNewConn(nil, nil)
+	c.lastEventID = initialID
 	c.SubscribeToAll(func(e Event) { o.events = append(o.events, e) })
 	o.err = c.read(r, func(d time.Duration) {
 		o.retries = append(o.retries, d)
@@ -205,3 +206,39 @@ func vhC01ConnTpl() {
 }
 
 var _ = errors.New
+
+// Small scanner buffers: values handed out by the parser must stay intact when the
+// scanner compacts and refills its buffer (the default 4 KiB buffer only does that
+// on long streams; here the same bufio.Scanner logic runs with a 16-byte buffer).
+func vhSmallBufStream() []byte {
+	var s []byte
+	s = append(s, "id:i7\nevent:ty\n\n"...)
+	n := 1 + verifChoose("more", 2)
+	for i := 0; i < n; i++ {
+		s = append(s, "data:"...)
+		s = append(s, verifNondetBytes("datahole", 1)...)
+		s = append(s, "\n\n"...)
+	}
+	return s
+}
+
+func vhC01SmallBufRead() {
+	stream := vhSmallBufStream()
+	r := &vhReader{data: stream, seg: true, coarse: true, budget: verifParam("FORKS", 4)}
+	o := vhRunRead(r, &ReadConfig{MaxEventSize: verifParam("L", 16)}, -1)
+	vhCheckReadAgainstSpec("C01/SmallBufRead", stream, o, -1, nil)
+}
+
+func vhC01SmallBufConn() {
+	stream := vhSmallBufStream()
+	r := &vhReader{data: stream, seg: true, coarse: true, budget: verifParam("FORKS", 4)}
+	var o vhConnOutcome
+	c := vhNewConn(nil, nil)
+	c.Buffer(nil, verifParam("L", 16))
+	c.SubscribeToAll(func(e Event) { o.events = append(o.events, e) })
+	o.err = c.read(r, func(d time.Duration) {
+		o.retries = append(o.retries, d)
+		o.retryAt = append(o.retryAt, len(o.events))
+	})
+	vhCheckConnAgainstSpec("C01/SmallBufConn", stream, "", o, c, nil)
+}
